@@ -106,13 +106,23 @@ type SpecSet struct {
 	Axioms    []*Clause
 	AxiomPkg  map[*Clause]string
 	Errors    []string
+	TypePaths []*TypePathSpec
+}
+
+// TypePathSpec declares the complete set of access paths from a root type to a target type that the
+// contracts of a property account for; the engine enumerates the real set from go/types and compares.
+type TypePathSpec struct {
+	Prop, Pkg, Root, Target string
+	Paths                   []string
+	File                    string
+	Line                    int
 }
 
 func NewSpecSet() *SpecSet {
 	return &SpecSet{SpecFuncs: map[string]*SpecFunc{}, GhostVars: map[string]*GhostVar{}, AxiomPkg: map[*Clause]string{}}
 }
 
-var keywordRe = regexp.MustCompile(`^(package|func|prop|mode|requires|ensures|guarantee|rely|callsite|assigns|loop|let|eval|trusted|pure|maypanic|spec|ghost|axiom|lemma|end|noinline|inline|concurrent|safety|flag|terminates)\b`)
+var keywordRe = regexp.MustCompile(`^(typepaths|package|func|prop|mode|requires|ensures|guarantee|rely|callsite|assigns|loop|let|eval|trusted|pure|maypanic|spec|ghost|axiom|lemma|end|noinline|inline|concurrent|safety|flag|terminates)\b`)
 
 // ParseSpecFile reads //@ lines from a Go file or a .gospec file.
 // defaultPkg is the package path of the directory for in-repo contract files.
@@ -200,6 +210,26 @@ func (ss *SpecSet) ParseSpecFile(path, defaultPkg string) {
 			}
 			ss.Contracts = append(ss.Contracts, c)
 			cur = c
+		case "typepaths":
+			// typepaths Cxx Root Target = path ; path ; ...
+			i := strings.Index(rest, "=")
+			if i < 0 {
+				errf(l, "typepaths: expected '='")
+				continue
+			}
+			fs := strings.Fields(rest[:i])
+			if len(fs) != 3 {
+				errf(l, "typepaths: expected <prop> <root type> <target type> = paths")
+				continue
+			}
+			tp := &TypePathSpec{Prop: fs[0], Pkg: pkg, Root: fs[1], Target: fs[2], File: path, Line: l.no}
+			for _, p := range strings.Split(rest[i+1:], ";") {
+				if p = strings.Join(strings.Fields(p), ""); p != "" {
+					tp.Paths = append(tp.Paths, p)
+				}
+			}
+			ss.TypePaths = append(ss.TypePaths, tp)
+			cur = nil
 		case "spec", "ghost":
 			// spec func name(a T, b U) R [= expr]   |  ghost func name(a T) R  |  ghost var name T
 			if strings.HasPrefix(rest, "var ") {
